@@ -209,6 +209,10 @@ def run(tier, seed):
         r.add_cases(cases, verdicts, nontrivial=nontriv)
     # 3. impl -> spec: repository scripts under forced collection
     scripts = script_cases()
+    if tier == "quick":
+        keep_always = [c for c in scripts if "thread" in c["id"] or "gc" in c["id"]]
+        rest = [c for c in scripts if c not in keep_always]
+        scripts = keep_always + rnd.sample(rest, min(24, len(rest)))
     base = vlib.replay(scripts, work, env_extra={}, jobs=12, timeout_ms=120000, name="c04-scripts-base")
     ok = [c for c, v in zip(scripts, base) if v["pass"]]
     verdicts = vlib.replay(ok, work, env_extra={"VERIF_USE_FREE_CHECK": "1", "VERIF_GC_EVERY": "50"}, jobs=12,
